@@ -175,6 +175,6 @@ naluLoop:
 
 // IsVideoNaluType returns true if nalu type is a VCL nalu.
 func IsVideoNaluType(naluType NaluType) bool {
-	const highestVideoNaluType = 5
-	return naluType <= highestVideoNaluType
+	const lowestVideoNaluType, highestVideoNaluType = 1, 5 // type 0 is unspecified and not VCL
+	return lowestVideoNaluType <= naluType && naluType <= highestVideoNaluType
 }
